@@ -17,6 +17,8 @@ import Jqawk.Lemmas.NewlineSemiRun
 import Jqawk.Lemmas.NewlineTexts
 import Jqawk.Lemmas.NewlineBytesRun
 import Jqawk.Lemmas.NewlineSemiBytes
+import Jqawk.Lemmas.ParserFuel
+import Jqawk.Lemmas.ParserMono
 import Jqawk.Model.Eval
 
 namespace Jqawk.C13
@@ -654,9 +656,9 @@ theorem parseExpressionSrc_eq (tbl : RuleTable) (src : Bytes) :
     up to positions for every request sequence — whatever the layout, comments, or offsets)
     parse to the same AST up to positions, or both fail with the same message, with any rule
     table — PROVIDED neither run is out of fuel: `ResEquiv` holds as soon as either side is
-    `.oof`, and no theorem of this file shows that `parserFuel` suffices.  So this is an
-    agreement statement only; it does not by itself say that `src₂` parses whenever `src₁`
-    does (the one-directional theorems of section 8 do, for their relations).  Only the parse
+    `.oof`.  So this is an agreement statement only; section 10 (`parse_never_oof`) shows that
+    `parserFuel` always suffices for tables without EOF rules, and `layout_invariant_total` /
+    `layout_invariant_parses` there are this theorem without the out-of-fuel escape.  Only the parse
     is covered, not evaluation.  (Since the fuel depends on the length of the text the two runs
     use different fuel — handled by fuel monotonicity, which is part of `allSim`.) -/
 theorem layout_invariant (tbl : RuleTable) (src₁ src₂ : Bytes)
@@ -1405,5 +1407,539 @@ example :
   refine ⟨⟨⟨.num, [false]⟩, 22, ⟨.print, 24, []⟩, false, ⟨b!" x }", 29, 24⟩, by rfl,
     ⟨rfl, by decide, by decide, by decide, by decide⟩, by decide +kernel⟩,
     by decide, by decide +kernel, by decide +kernel, by decide +kernel⟩
+
+/-! ### 10. the parser's fuel always suffices
+
+The model's parser functions take a fuel argument that bounds the DEPTH of the call stack (loop
+iterations are recursive calls, so they count too); out of fuel is the distinct outcome `.oof`,
+which `ResEquiv` (section 7) does not compare.  This section shows that `.oof` never happens
+with the fuel the model supplies, and removes the escape clause from the theorems of section 7.
+Proof (Lemmas/ParserFuel.lean): the measure "unread bytes + 1 if the current token is not EOF"
+never grows, every consumed non-EOF token shrinks it, and any three nested calls consume a
+token; so fuel `3 * measure + c_f` suffices for each of the 14 functions `f`. -/
+
+/-- C13 (lexer level, progress): what the parser's `advance` receives (`Lexer.nextNN`: `Next()`
+    repeated over newline tokens) never lengthens the unread text, and a token other than EOF
+    costs at least one byte.  Says nothing about which bytes. -/
+theorem nextNN_consumes (f : Nat) (s : LexState) (nl₀ : Bool) (t : Token) (nl : Bool) (s' : LexState)
+    (h : Lexer.nextNN f s nl₀ = .ok (t, nl, s')) :
+    s'.rest.length ≤ s.rest.length ∧ (t.tag ≠ .eof → s'.rest.length < s.rest.length) :=
+  ParserFuel.nextNN_progress f s nl₀ t nl s' h
+
+example : Lexer.nextNN 20 ⟨b!" # note\n\t\nx y", 0, 0⟩ false
+    = .ok (⟨.ident, 10, b!"x"⟩, true, ⟨b!" y", 11, 10⟩) := by rfl
+
+/-- C13 (lexer level): `Lexer.Regex()` consumes at least the closing `/`, and its token has tag
+    `regex` (never EOF). -/
+theorem regex_consumes (s : LexState) (t : Token) (s' : LexState) (h : Lexer.regex s = .ok (t, s')) :
+    s'.rest.length < s.rest.length ∧ t.tag = .regex :=
+  ParserFuel.regex_progress s t s' h
+
+example : Lexer.regex ⟨b!"/ x", 1, 0⟩ = .ok (⟨.regex, 1, []⟩, ⟨b!" x", 2, 1⟩) := by rfl
+
+/-- C13 (lexer level): newline skipping has its own fuel, `unread bytes + 1` in `PM.run`; that
+    (or any larger) amount suffices: an error it reports is never the model's own out-of-fuel
+    error `⟨0, "fuel"⟩` of `nextNN` — it does not even carry that message (every real lexer
+    error has another one). -/
+theorem nextNN_fuel_suffices (f : Nat) (s : LexState) (nl : Bool) (hf : s.rest.length < f)
+    (e : SynErr) (h : Lexer.nextNN f s nl = .error e) : e.msg ≠ "fuel" :=
+  ParserFuel.nextNN_error_msg f s nl e hf h
+
+/-- with too little fuel the artefact does show; with `length + 1` it does not; and a real error -/
+example : Lexer.nextNN 3 ⟨b!"\n\n\nx", 0, 0⟩ false = .error ⟨0, "fuel"⟩ ∧
+    Lexer.nextNN 5 ⟨b!"\n\n\nx", 0, 0⟩ false = .ok (⟨.ident, 3, b!"x"⟩, true, ⟨[], 4, 3⟩) ∧
+    Lexer.nextNN 5 ⟨b!"\n\n\n^", 0, 0⟩ false = .error ⟨3, "unexpected character"⟩ :=
+  ⟨by rfl, by rfl, by rfl⟩
+
+/-- The requirement on the rule table: the EOF token has neither a prefix nor an infix rule
+    (`ParserFuel.EofRule`, decidable).  It holds for the table of src/parser.go. -/
+theorem expectedRuleTable_eofRule : ParserFuel.EofRule expectedRuleTable :=
+  ParserFuel.expectedRuleTable_eofRule
+
+/-- C13 (the parser's fuel suffices, any fuel, any lexer state): with a rule table without rules
+    for EOF, the program parser and the expression parser, started in ANY lexer state `s` with
+    fuel `n ≥ 3 * (unread bytes of s) + 3`, do not run out of fuel: the outcome is a parse or a
+    syntax error.  Says nothing about which of the two. -/
+theorem parser_fuel_suffices (tbl : RuleTable) (hT : ParserFuel.EofRule tbl) (n : Nat) (s : LexState)
+    (hn : 3 * s.rest.length + 3 ≤ n) :
+    (Parser.parseProgram tbl n PS.init).run s ≠ .oof ∧
+    (Parser.parseExpression tbl n PS.init).run s ≠ .oof :=
+  ⟨(ParserFuel.parseProgram_tot hT n s hn).run_ne_oof,
+   (ParserFuel.parseExpression_tot hT n s (by omega)).run_ne_oof⟩
+
+example : ParserFuel.EofRule expectedRuleTable ∧
+    3 * (LexState.init b!"{ print [1, [2]] }").rest.length + 3 ≤ 57 := by decide
+
+theorem stripPS_ne_oof {α : Type} {r : ParseRes (α × PS)} (h : r ≠ .oof) : stripPS r ≠ .oof := by
+  cases r with
+  | ok a => intro e; cases e
+  | syntaxErr e => intro e; cases e
+  | oof => exact absurd rfl h
+
+example : (ParseRes.syntaxErr ⟨3, "x"⟩ : ParseRes (Expr × PS)) ≠ .oof := fun e => (by cases e)
+
+/-- C13 (the parser's fuel always suffices): for every rule table without rules for EOF and
+    EVERY program text, neither top-level parse function of the model (`parseProgramSrc`, used
+    for programs; `parseExpressionSrc`, used for `-r` selectors) is ever out of fuel:
+    `parserFuel src = 8 * length + 64` is enough (`3 * length + 3` would do). -/
+theorem parse_never_oof (tbl : RuleTable) (hT : ParserFuel.EofRule tbl) (src : Bytes) :
+    parseProgramSrc tbl src ≠ .oof ∧ parseExpressionSrc tbl src ≠ .oof := by
+  rw [parseProgramSrc_eq, parseExpressionSrc_eq]
+  have h := parser_fuel_suffices tbl hT (parserFuel src) (LexState.init src)
+    (by show 3 * src.length + 3 ≤ 8 * src.length + 64; omega)
+  exact ⟨stripPS_ne_oof h.1, stripPS_ne_oof h.2⟩
+
+example : ParserFuel.EofRule expectedRuleTable := by decide
+
+/-- … in particular with the rule table of src/parser.go: every text either parses or is a
+    syntax error -/
+theorem parse_total (src : Bytes) :
+    ((∃ p, parseProgramSrc expectedRuleTable src = .ok p) ∨
+      ∃ e, parseProgramSrc expectedRuleTable src = .syntaxErr e) ∧
+    ((∃ x, parseExpressionSrc expectedRuleTable src = .ok x) ∨
+      ∃ e, parseExpressionSrc expectedRuleTable src = .syntaxErr e) := by
+  obtain ⟨h1, h2⟩ := parse_never_oof expectedRuleTable expectedRuleTable_eofRule src
+  constructor
+  · cases h : parseProgramSrc expectedRuleTable src with
+    | ok p => exact .inl ⟨p, rfl⟩
+    | syntaxErr e => exact .inr ⟨e, rfl⟩
+    | oof => exact absurd h h1
+  · cases h : parseExpressionSrc expectedRuleTable src with
+    | ok p => exact .inl ⟨p, rfl⟩
+    | syntaxErr e => exact .inr ⟨e, rfl⟩
+    | oof => exact absurd h h2
+
+theorem stripPS_syntaxErr {α : Type} {r : ParseRes (α × PS)} {e : SynErr}
+    (h : stripPS r = .syntaxErr e) : r = .syntaxErr e := by
+  cases r with
+  | ok a => cases h
+  | syntaxErr e' => simpa [stripPS] using h
+  | oof => cases h
+
+example : stripPS (.syntaxErr ⟨3, "x"⟩ : ParseRes (Expr × PS)) = .syntaxErr ⟨3, "x"⟩ := rfl
+
+/-- C13 (the other fuel artefact never shows either): `PM.run` reports an exhausted
+    newline-skipping fuel (`Lexer.nextNN`) as the syntax error `⟨0, "fuel"⟩`.  With any fuel of
+    at least `3 * (unread bytes) + 3`, from any lexer state, a syntax error reported by the
+    program parser or by the expression parser never has the message `"fuel"`: every reported
+    error is a real one (a lexer error or a parser error of src/parser.go, whose messages are
+    different).  Says nothing else about which error is reported.  Rule table without EOF rules. -/
+theorem parser_errors_real (tbl : RuleTable) (hT : ParserFuel.EofRule tbl) (n : Nat) (s : LexState)
+    (hn : 3 * s.rest.length + 3 ≤ n) (e : SynErr) :
+    ((Parser.parseProgram tbl n PS.init).run s = .syntaxErr e → e.msg ≠ "fuel") ∧
+    ((Parser.parseExpression tbl n PS.init).run s = .syntaxErr e → e.msg ≠ "fuel") :=
+  ⟨fun h => (ParserFuel.parseProgram_tot hT n s hn).run_err h,
+   fun h => (ParserFuel.parseExpression_tot hT n s (by omega)).run_err h⟩
+
+/-- an instance of the hypotheses, with a run that does report a syntax error -/
+example : ParserFuel.EofRule expectedRuleTable ∧ 3 * (LexState.init b!"{ print").rest.length + 3 ≤ 30 ∧
+    (match (Parser.parseProgram expectedRuleTable 30 PS.init).run (LexState.init b!"{ print") with
+      | .syntaxErr e => e.msg != "fuel" | _ => false) = true :=
+  ⟨by decide, by decide, by decide +kernel⟩
+
+/-- … in particular for the model's top-level parse functions, on every text -/
+theorem parse_errors_real (tbl : RuleTable) (hT : ParserFuel.EofRule tbl) (src : Bytes) (e : SynErr) :
+    (parseProgramSrc tbl src = .syntaxErr e → e.msg ≠ "fuel") ∧
+    (parseExpressionSrc tbl src = .syntaxErr e → e.msg ≠ "fuel") := by
+  rw [parseProgramSrc_eq, parseExpressionSrc_eq]
+  have h := parser_errors_real tbl hT (parserFuel src) (LexState.init src)
+    (by show 3 * src.length + 3 ≤ 8 * src.length + 64; omega) e
+  exact ⟨fun h1 => h.1 (stripPS_syntaxErr h1), fun h2 => h.2 (stripPS_syntaxErr h2)⟩
+
+example : ParserFuel.EofRule expectedRuleTable := by decide
+
+/-- the table hypothesis cannot be dropped: with a (hypothetical) table that gives EOF a prefix
+    and an infix rule the parser loops at the end of the text — `advance` at EOF yields EOF
+    again — and the model is out of fuel (checked here with the model's fuel, 64, on the empty
+    text; the loop consumes nothing, so more fuel would not help, but only this instance is
+    checked).  The Go parser with such a table would presumably not terminate. -/
+example : (match parseExpressionSrc [(.eof, ⟨1, some .literal, some .binary⟩)] [] with
+    | .oof => true | _ => false) = true := by decide +kernel
+
+/-- the slope 3 is exact: `k` opening brackets need fuel `3 * k` (the call chain
+    `expressionWithPrec → prefixFn → exprList` is repeated once per bracket) -/
+example : (match (Parser.parseExpression expectedRuleTable 11 PS.init).run (LexState.init b!"[[[[") with
+      | .oof => true | _ => false) = true ∧
+    (match (Parser.parseExpression expectedRuleTable 12 PS.init).run (LexState.init b!"[[[[") with
+      | .syntaxErr _ => true | _ => false) = true := by
+  refine ⟨by decide +kernel, by decide +kernel⟩
+
+/-! #### section 7 without the out-of-fuel escape -/
+
+/-- outcomes equal up to positions, WITHOUT an out-of-fuel clause: both are parses with the same
+    AST after `erase`, or both are syntax errors with the same message; anything else — in
+    particular an `.oof` on either side — is not related. -/
+def ResEquivT {α : Type} [Erase α] : ParseRes α → ParseRes α → Prop
+  | .ok a, .ok b => erase a = erase b
+  | .syntaxErr e₁, .syntaxErr e₂ => e₁.msg = e₂.msg
+  | _, _ => False
+
+/-- `ResEquiv` between two outcomes that are not out of fuel is `ResEquivT` -/
+theorem resEquivT_of {α : Type} [Erase α] {a b : ParseRes α} (h : ResEquiv a b)
+    (ha : a ≠ .oof) (hb : b ≠ .oof) : ResEquivT a b := by
+  cases a <;> cases b <;> first
+    | exact h
+    | exact absurd rfl ha
+    | exact absurd rfl hb
+
+/-- the hypotheses on an instance (two errors with the same message at different positions);
+    and the difference between the two relations on an out-of-fuel outcome -/
+example : ResEquiv (.syntaxErr ⟨0, "x"⟩ : ParseRes Expr) (.syntaxErr ⟨7, "x"⟩) ∧
+    (.syntaxErr ⟨0, "x"⟩ : ParseRes Expr) ≠ .oof ∧ (.syntaxErr ⟨7, "x"⟩ : ParseRes Expr) ≠ .oof :=
+  ⟨rfl, fun e => (by cases e), fun e => (by cases e)⟩
+
+example : ResEquiv (.oof : ParseRes Expr) (.syntaxErr ⟨0, "x"⟩) ∧
+    ¬ ResEquivT (.oof : ParseRes Expr) (.syntaxErr ⟨0, "x"⟩) := ⟨trivial, fun h => h⟩
+
+/-- what `ResEquivT a b` says, spelled out: if `a` is a parse then `b` is a parse of the same AST
+    up to positions, if `a` is a syntax error then `b` is one with the same message, the same
+    from `b` to `a`, and neither is out of fuel. -/
+theorem resEquivT_iff {α : Type} [Erase α] (a b : ParseRes α) :
+    ResEquivT a b ↔
+      ((∀ p, a = .ok p → ∃ p', b = .ok p' ∧ erase p = erase p') ∧
+       (∀ e, a = .syntaxErr e → ∃ e', b = .syntaxErr e' ∧ e.msg = e'.msg) ∧
+       (∀ p', b = .ok p' → ∃ p, a = .ok p ∧ erase p = erase p') ∧
+       (∀ e', b = .syntaxErr e' → ∃ e, a = .syntaxErr e ∧ e.msg = e'.msg) ∧
+       a ≠ .oof ∧ b ≠ .oof) := by
+  constructor
+  · intro h
+    cases a with
+    | ok p =>
+      cases b with
+      | ok p' =>
+        exact ⟨fun _ hx => (by cases hx; exact ⟨_, rfl, h⟩), fun _ hx => (by cases hx),
+          fun _ hx => (by cases hx; exact ⟨_, rfl, h⟩), fun _ hx => (by cases hx),
+          fun hx => (by cases hx), fun hx => (by cases hx)⟩
+      | syntaxErr e => exact absurd h id
+      | oof => exact absurd h id
+    | syntaxErr e =>
+      cases b with
+      | ok p' => exact absurd h id
+      | syntaxErr e' =>
+        exact ⟨fun _ hx => (by cases hx), fun _ hx => (by cases hx; exact ⟨_, rfl, h⟩),
+          fun _ hx => (by cases hx), fun _ hx => (by cases hx; exact ⟨_, rfl, h⟩),
+          fun hx => (by cases hx), fun hx => (by cases hx)⟩
+      | oof => exact absurd h id
+    | oof => cases b <;> exact absurd h id
+  · rintro ⟨h1, h2, h3, h4, h5, h6⟩
+    cases a with
+    | ok p => obtain ⟨p', rfl, he⟩ := h1 p rfl; exact he
+    | syntaxErr e => obtain ⟨e', rfl, he⟩ := h2 e rfl; exact he
+    | oof => exact absurd rfl h5
+
+/-- C13 (`parse_tokEquiv` without the escape): from two token-equivalent lexer states, each run
+    with fuel at least `3 * (its unread bytes) + 3`, the program parser gives the same AST up to
+    positions or fails with the same message on both sides — and likewise the expression
+    parser.  In particular one side parses iff the other does.  (Rule table without EOF rules.) -/
+theorem parse_tokEquiv_total (tbl : RuleTable) (hT : ParserFuel.EofRule tbl) (n₁ n₂ : Nat)
+    (s₁ s₂ : LexState) (h : TokEquiv s₁ s₂)
+    (h₁ : 3 * s₁.rest.length + 3 ≤ n₁) (h₂ : 3 * s₂.rest.length + 3 ≤ n₂) :
+    ResEquivT (stripPS ((Parser.parseProgram tbl n₁ PS.init).run s₁))
+      (stripPS ((Parser.parseProgram tbl n₂ PS.init).run s₂)) ∧
+    ResEquivT (stripPS ((Parser.parseExpression tbl n₁ PS.init).run s₁))
+      (stripPS ((Parser.parseExpression tbl n₂ PS.init).run s₂)) := by
+  obtain ⟨e1, e2⟩ := parse_tokEquiv tbl n₁ n₂ s₁ s₂ h
+  obtain ⟨a1, a2⟩ := parser_fuel_suffices tbl hT n₁ s₁ h₁
+  obtain ⟨b1, b2⟩ := parser_fuel_suffices tbl hT n₂ s₂ h₂
+  exact ⟨resEquivT_of e1 (stripPS_ne_oof a1) (stripPS_ne_oof b1),
+    resEquivT_of e2 (stripPS_ne_oof a2) (stripPS_ne_oof b2)⟩
+
+example : ParserFuel.EofRule expectedRuleTable ∧ TokEquiv ⟨b!"x = 1", 0, 0⟩ ⟨b!"x = 1", 40, 7⟩ ∧
+    3 * (⟨b!"x = 1", 0, 0⟩ : LexState).rest.length + 3 ≤ 18 ∧
+    3 * (⟨b!"x = 1", 40, 7⟩ : LexState).rest.length + 3 ≤ 1000 :=
+  ⟨by decide, tokEquiv_of_sameRest _ _ rfl, by decide, by decide⟩
+
+/-- C13 (exact fuel monotonicity, any rule table, any lexer state, any parser state): a run of
+    the program parser or of the expression parser that is not out of fuel gives exactly the
+    same result — same AST with the same positions, same error with the same position, same
+    final parser state — with any larger fuel (Lemmas/ParserMono.lean: with less fuel a parser
+    function is the same program cut off by `.oof` at some leaves). -/
+theorem parser_fuel_monotone (tbl : RuleTable) (n₁ n₂ : Nat) (h : n₁ ≤ n₂) (ps : PS) (s : LexState) :
+    ((Parser.parseProgram tbl n₁ ps).run s ≠ .oof →
+      (Parser.parseProgram tbl n₁ ps).run s = (Parser.parseProgram tbl n₂ ps).run s) ∧
+    ((Parser.parseExpression tbl n₁ ps).run s ≠ .oof →
+      (Parser.parseExpression tbl n₁ ps).run s = (Parser.parseExpression tbl n₂ ps).run s) :=
+  ⟨ParserMono.parseProgram_run_mono tbl n₁ n₂ h ps s,
+   ParserMono.parseExpression_run_mono tbl n₁ n₂ h ps s⟩
+
+/-- an instance where the premise holds (fuel 12 is enough for `x = 1`) and one where it does
+    not (fuel 3 is not) -/
+example : (match (Parser.parseProgram expectedRuleTable 12 PS.init).run (LexState.init b!"x = 1") with
+      | .ok _ => true | _ => false) = true ∧
+    (match (Parser.parseProgram expectedRuleTable 3 PS.init).run (LexState.init b!"x = 1") with
+      | .oof => true | _ => false) = true := ⟨by decide +kernel, by decide +kernel⟩
+
+/-- C13 (the fuel is irrelevant above the bound): from any lexer state `s`, any two amounts of
+    fuel of at least `3 * (unread bytes) + 3` give EQUAL results (AST with positions, or error
+    with position, and final parser state), for the program parser and the expression parser;
+    none of them is out of fuel (`parser_fuel_suffices`).  Rule table without EOF rules. -/
+theorem parser_fuel_irrelevant (tbl : RuleTable) (hT : ParserFuel.EofRule tbl) (s : LexState)
+    (n₁ n₂ : Nat) (h₁ : 3 * s.rest.length + 3 ≤ n₁) (h₂ : 3 * s.rest.length + 3 ≤ n₂) :
+    (Parser.parseProgram tbl n₁ PS.init).run s = (Parser.parseProgram tbl n₂ PS.init).run s ∧
+    (Parser.parseExpression tbl n₁ PS.init).run s = (Parser.parseExpression tbl n₂ PS.init).run s := by
+  obtain ⟨a1, a2⟩ := parser_fuel_suffices tbl hT n₁ s h₁
+  obtain ⟨b1, b2⟩ := parser_fuel_suffices tbl hT n₂ s h₂
+  rcases Nat.le_total n₁ n₂ with h | h
+  · obtain ⟨m1, m2⟩ := parser_fuel_monotone tbl n₁ n₂ h PS.init s
+    exact ⟨m1 a1, m2 a2⟩
+  · obtain ⟨m1, m2⟩ := parser_fuel_monotone tbl n₂ n₁ h PS.init s
+    exact ⟨(m1 b1).symm, (m2 b2).symm⟩
+
+example : ParserFuel.EofRule expectedRuleTable ∧ 3 * (LexState.init b!"x = 1").rest.length + 3 ≤ 18 ∧
+    3 * (LexState.init b!"x = 1").rest.length + 3 ≤ 104 := by decide
+
+/-- C13 (the model's answer does not depend on its choice of fuel): every fuel `n` of at least
+    `3 * length + 3` gives exactly the outcome of `parseProgramSrc` / `parseExpressionSrc`
+    (which use `8 * length + 64`): the fuel is an artefact of the model, not part of what is
+    modelled.  Rule table without EOF rules. -/
+theorem parse_fuel_stable (tbl : RuleTable) (hT : ParserFuel.EofRule tbl) (src : Bytes) (n : Nat)
+    (hn : 3 * src.length + 3 ≤ n) :
+    stripPS ((Parser.parseProgram tbl n PS.init).run (LexState.init src)) = parseProgramSrc tbl src ∧
+    stripPS ((Parser.parseExpression tbl n PS.init).run (LexState.init src))
+      = parseExpressionSrc tbl src := by
+  rw [parseProgramSrc_eq, parseExpressionSrc_eq]
+  obtain ⟨h1, h2⟩ := parser_fuel_irrelevant tbl hT (LexState.init src) n (parserFuel src) hn
+    (by show 3 * src.length + 3 ≤ 8 * src.length + 64; omega)
+  rw [h1, h2]; exact ⟨rfl, rfl⟩
+
+example : ParserFuel.EofRule expectedRuleTable ∧ 3 * b!"{ print 1 }".length + 3 ≤ 36 := by decide
+
+/-- C13 (`newline_layout_invariant` without its length hypothesis): if the lexer state of
+    `src₂` is newline-insertion equivalent to that of `src₁` and `src₁` parses, then `src₂`
+    parses to the same AST up to positions — whether or not `src₂` is the longer text (the
+    hypothesis `src₁.length ≤ src₂.length` of `newline_layout_invariant` only served to give the
+    second run at least as much fuel).  Rule table without EOF rules. -/
+theorem newline_layout_invariant_total (tbl : RuleTable) (hT : Nl.TableOK tbl = true)
+    (hE : ParserFuel.EofRule tbl) (src₁ src₂ : Bytes)
+    (h : NlTokEquiv (LexState.init src₁) (LexState.init src₂)) (p : Program)
+    (hp : parseProgramSrc tbl src₁ = .ok p) :
+    ∃ p', parseProgramSrc tbl src₂ = .ok p' ∧ erase p = erase p' := by
+  obtain ⟨Rσ, hS, hs⟩ := h
+  rw [parseProgramSrc_eq] at hp ⊢
+  cases hr : (Parser.parseProgram tbl (parserFuel src₁) PS.init).run (LexState.init src₁) with
+  | ok r =>
+    obtain ⟨p₀, st⟩ := r
+    rw [hr] at hp
+    simp only [stripPS, ParseRes.ok.injEq] at hp
+    subst hp
+    rw [run_eq_runWith] at hr
+    obtain ⟨p', st', h', he⟩ := Nl.parseProgram_runE hT (parserFuel src₁)
+      (max (parserFuel src₁) (parserFuel src₂)) (Nat.le_max_left _ _) hS hs hr
+    rw [← run_eq_runWith] at h'
+    have hne := (parser_fuel_suffices tbl hE (parserFuel src₂) (LexState.init src₂)
+      (by show 3 * src₂.length + 3 ≤ 8 * src₂.length + 64; omega)).1
+    have hm := (parser_fuel_monotone tbl (parserFuel src₂) (max (parserFuel src₁) (parserFuel src₂))
+      (Nat.le_max_right _ _) PS.init (LexState.init src₂)).1 hne
+    exact ⟨p', by rw [hm, h']; rfl, he⟩
+  | syntaxErr e => rw [hr] at hp; cases hp
+  | oof => rw [hr] at hp; cases hp
+
+/-- all hypotheses of `newline_layout_invariant_total` with `src₂` the SHORTER text (`  x` and
+    `⏎x`; the relation is "same unread text, or this pair of initial states in the initial ghost
+    state"), where `newline_layout_invariant` does not apply -/
+example : NlTokEquiv (LexState.init b!"  x") (LexState.init b!"\nx") ∧
+    ¬ (b!"  x".length ≤ b!"\nx".length) ∧
+    Nl.TableOK expectedRuleTable = true ∧ ParserFuel.EofRule expectedRuleTable ∧
+    (match parseProgramSrc expectedRuleTable b!"  x" with | .ok _ => true | _ => false) = true := by
+  refine ⟨⟨fun g a b => Lexer.SameRest a b ∨
+      (g = Nl.G.init ∧ a = LexState.init b!"  x" ∧ b = LexState.init b!"\nx"), ⟨?_, ?_⟩,
+      .inr ⟨rfl, rfl, rfl⟩⟩, by decide, by decide, by decide, by decide +kernel⟩
+  · rintro g a b (h | ⟨rfl, rfl, rfl⟩) t nl a' h₁
+    · obtain ⟨t', nl', b', e1, e2, e3, e4⟩ := Nl.sameRest_nlSimE_next g a b h t nl a' h₁
+      exact ⟨t', nl', b', e1, e2, e3, .inl e4⟩
+    · cases h₁
+      exact ⟨_, true, _, rfl, rfl, .inr ⟨rfl, rfl, by decide⟩, .inl rfl⟩
+  · rintro g a b (h | ⟨rfl, rfl, rfl⟩) t a' h₁
+    · obtain ⟨e0, t', b', e1, e2, e4⟩ := Nl.sameRest_nlSimE_regex a b h t a' h₁
+      exact ⟨e0, t', b', e1, e2, .inl e4⟩
+    · cases h₁
+
+/-- C13 (`newline_insertion_texts_partial` without its length hypothesis): for two texts without
+    a `/` byte whose flagged token sequences (computed by the lexer alone) are related by
+    `NlMoreAt`: if `src₁` parses, `src₂` parses to the same AST up to positions, whichever of the
+    two is longer.  (Still partial in the same sense as `newline_insertion_texts_partial`: texts
+    without `/`, and the hypothesis is a computed relation between the token sequences.)
+    Rule table without EOF rules. -/
+theorem newline_insertion_texts_total_partial (tbl : RuleTable) (hT : Nl.TableOK tbl = true)
+    (hE : ParserFuel.EofRule tbl)
+    (src₁ src₂ : Bytes) (h₁ : (47 : UInt8) ∉ src₁) (h₂ : (47 : UInt8) ∉ src₂)
+    (ts₁ ts₂ : List (Token × Bool))
+    (hl₁ : lexFlags (src₁.length + 2) (LexState.init src₁) = some ts₁)
+    (hl₂ : lexFlags (src₂.length + 2) (LexState.init src₂) = some ts₂)
+    (hm : Nl.NlMoreAt Nl.G.init ts₁ ts₂) (p : Program) (hp : parseProgramSrc tbl src₁ = .ok p) :
+    ∃ p', parseProgramSrc tbl src₂ = .ok p' ∧ erase p = erase p' := by
+  rw [parseProgramSrc_eq, run_eq_runWith] at hp ⊢
+  have hn : parserFuel src₁ ≤ max (parserFuel src₁) (parserFuel src₂) := Nat.le_max_left _ _
+  -- the run on `src₂` with the model's fuel equals the run with the larger fuel
+  have hne := (parser_fuel_suffices tbl hE (parserFuel src₂) (LexState.init src₂)
+    (by show 3 * src₂.length + 3 ≤ 8 * src₂.length + 64; omega)).1
+  have hmono := (parser_fuel_monotone tbl (parserFuel src₂) (max (parserFuel src₁) (parserFuel src₂))
+    (Nat.le_max_right _ _) PS.init (LexState.init src₂)).1 hne
+  rw [run_eq_runWith, run_eq_runWith] at hmono
+  rw [hmono]
+  cases hr : (Parser.parseProgram tbl (parserFuel src₁) PS.init).runWith lexerSrc (LexState.init src₁) with
+  | syntaxErr e => rw [hr] at hp; cases hp
+  | oof => rw [hr] at hp; cases hp
+  | ok r =>
+    obtain ⟨p₀, st⟩ := r
+    rw [hr] at hp
+    simp only [stripPS, ParseRes.ok.injEq] at hp
+    subst hp
+    have s1 := PM.run_sim Nl.lexRel_isSimE
+      (parseProgram_sim tbl (parserFuel src₁) (parserFuel src₁) (Nat.le_refl _) PS.init PS.init rfl)
+      (LexState.init src₁) ts₁ ⟨h₁, .inl ⟨_, hl₁⟩⟩
+    rw [hr] at s1
+    cases hm₁ : (Parser.parseProgram tbl (parserFuel src₁) PS.init).runWith Nl.flagSrcNR ts₁ with
+    | syntaxErr e => rw [hm₁] at s1; cases s1
+    | oof => rw [hm₁] at s1; cases s1
+    | ok r₁ =>
+      obtain ⟨p₁, st₁⟩ := r₁
+      rw [hm₁] at s1
+      cases s1 with
+      | ok e1 =>
+        simp only [erase_pair, Prod.mk.injEq] at e1
+        obtain ⟨st₂, hm₂⟩ := Nl.parseProgram_run hT _ Nl.flagSrcNR_isNlSim hm hm₁
+        have s3 := PM.run_sim (isSimE_symm Nl.lexRel_isSimE)
+          (parseProgram_sim tbl (parserFuel src₁) (max (parserFuel src₁) (parserFuel src₂)) hn
+            PS.init PS.init rfl)
+          ts₂ (LexState.init src₂) ⟨h₂, .inl ⟨_, hl₂⟩⟩
+        rw [hm₂] at s3
+        cases hm₃ : (Parser.parseProgram tbl (max (parserFuel src₁) (parserFuel src₂)) PS.init).runWith
+            lexerSrc (LexState.init src₂) with
+        | syntaxErr e => rw [hm₃] at s3; cases s3
+        | oof => rw [hm₃] at s3; cases s3
+        | ok r₃ =>
+          obtain ⟨p₃, st₃⟩ := r₃
+          rw [hm₃] at s3
+          cases s3 with
+          | ok e3 =>
+            simp only [erase_pair, Prod.mk.injEq] at e3
+            exact ⟨p₃, rfl, e1.1.trans e3.1⟩
+
+/-- the hypotheses on two concrete texts, the second one SHORTER (blanks removed, one newline
+    added inside the call), checked by evaluation; and, as the theorem says, both parse, to the
+    same AST up to positions -/
+example :
+    (47 : UInt8) ∉ b!"BEGIN   {   x = f(1,   2) }" ∧ (47 : UInt8) ∉ b!"BEGIN{x=f(1,\n2)}" ∧
+    ¬ (b!"BEGIN   {   x = f(1,   2) }".length ≤ b!"BEGIN{x=f(1,\n2)}".length) ∧
+    (∃ ts₁ ts₂,
+      lexFlags (b!"BEGIN   {   x = f(1,   2) }".length + 2)
+        (LexState.init b!"BEGIN   {   x = f(1,   2) }") = some ts₁ ∧
+      lexFlags (b!"BEGIN{x=f(1,\n2)}".length + 2) (LexState.init b!"BEGIN{x=f(1,\n2)}") = some ts₂ ∧
+      Nl.nlMoreB Nl.G.init ts₁ ts₂ = true) ∧
+    (match parseProgramSrc expectedRuleTable b!"BEGIN   {   x = f(1,   2) }",
+        parseProgramSrc expectedRuleTable b!"BEGIN{x=f(1,\n2)}" with
+      | .ok p, .ok p' => dumpProgram (erase p) == dumpProgram (erase p') | _, _ => false) = true := by
+  refine ⟨by decide +kernel, by decide +kernel, by decide, ⟨_, _, rfl, rfl, ?_⟩, by decide +kernel⟩
+  decide +kernel
+
+/-- C13 (`layout_invariant` without the escape): two program texts whose lexer states are
+    token-equivalent have the same outcome up to positions — both parse, to the same AST after
+    `erase`, or both are syntax errors with the same message; for the program parser and for
+    the expression parser, with any rule table without EOF rules.  `resEquivT_iff` spells the
+    relation out; `layout_invariant_parses` is the reading "src₂ parses whenever src₁ does".
+    Only the parse is covered, not evaluation. -/
+theorem layout_invariant_total (tbl : RuleTable) (hT : ParserFuel.EofRule tbl) (src₁ src₂ : Bytes)
+    (h : TokEquiv (LexState.init src₁) (LexState.init src₂)) :
+    ResEquivT (parseProgramSrc tbl src₁) (parseProgramSrc tbl src₂) ∧
+    ResEquivT (parseExpressionSrc tbl src₁) (parseExpressionSrc tbl src₂) := by
+  obtain ⟨e1, e2⟩ := layout_invariant tbl src₁ src₂ h
+  obtain ⟨a1, a2⟩ := parse_never_oof tbl hT src₁
+  obtain ⟨b1, b2⟩ := parse_never_oof tbl hT src₂
+  exact ⟨resEquivT_of e1 a1 b1, resEquivT_of e2 a2 b2⟩
+
+/-- the token equivalence of ` x` and `x` used in the examples (the relation is "same unread
+    text, or this pair of initial states") -/
+theorem tokEquiv_blank_x : TokEquiv (LexState.init b!" x") (LexState.init b!"x") := by
+  refine ⟨fun a b => Lexer.SameRest a b ∨ (a = LexState.init b!" x" ∧ b = LexState.init b!"x"),
+    ⟨?_, ?_⟩, .inr ⟨rfl, rfl⟩⟩
+  · rintro a b (h | ⟨rfl, rfl⟩)
+    · have := sameRest_isSimE.next a b h
+      revert this
+      cases lexerSrc.next a <;> cases lexerSrc.next b <;> simp only [PM.AnsNextE] <;> intro h
+      · exact h
+      · exact h
+      · exact h
+      · exact ⟨h.1, h.2.1, .inl h.2.2⟩
+    · exact ⟨rfl, rfl, .inl rfl⟩
+  · rintro a b (h | ⟨rfl, rfl⟩)
+    · have := sameRest_isSimE.regex a b h
+      revert this
+      cases lexerSrc.regex a <;> cases lexerSrc.regex b <;> simp only [PM.AnsRegexE] <;> intro h
+      · exact h
+      · exact h
+      · exact h
+      · exact ⟨h.1, .inl h.2⟩
+    · exact rfl
+
+example : ParserFuel.EofRule expectedRuleTable ∧
+    TokEquiv (LexState.init b!" x") (LexState.init b!"x") :=
+  ⟨expectedRuleTable_eofRule, tokEquiv_blank_x⟩
+
+/-- C13 (`layout_invariant`, the one-directional reading the review asked for): if `src₁`
+    parses to `p` then the token-equivalent `src₂` parses, to a program equal to `p` up to
+    positions; if `src₁` is a syntax error then so is `src₂`, with the same message.  Likewise
+    for the expression parser.  (By symmetry of `TokEquiv` also from `src₂` to `src₁`.) -/
+theorem layout_invariant_parses (tbl : RuleTable) (hT : ParserFuel.EofRule tbl) (src₁ src₂ : Bytes)
+    (h : TokEquiv (LexState.init src₁) (LexState.init src₂)) :
+    (∀ p, parseProgramSrc tbl src₁ = .ok p →
+      ∃ p', parseProgramSrc tbl src₂ = .ok p' ∧ erase p = erase p') ∧
+    (∀ e, parseProgramSrc tbl src₁ = .syntaxErr e →
+      ∃ e', parseProgramSrc tbl src₂ = .syntaxErr e' ∧ e.msg = e'.msg) ∧
+    (∀ x, parseExpressionSrc tbl src₁ = .ok x →
+      ∃ x', parseExpressionSrc tbl src₂ = .ok x' ∧ erase x = erase x') ∧
+    (∀ e, parseExpressionSrc tbl src₁ = .syntaxErr e →
+      ∃ e', parseExpressionSrc tbl src₂ = .syntaxErr e' ∧ e.msg = e'.msg) := by
+  obtain ⟨h1, h2⟩ := layout_invariant_total tbl hT src₁ src₂ h
+  obtain ⟨a1, a2, _⟩ := (resEquivT_iff _ _).mp h1
+  obtain ⟨b1, b2, _⟩ := (resEquivT_iff _ _).mp h2
+  exact ⟨a1, a2, b1, b2⟩
+
+/-- an instance where the premise of the first clause holds (` x` parses) -/
+example : (match parseProgramSrc expectedRuleTable b!" x" with | .ok _ => true | _ => false) = true := by
+  decide +kernel
+
+/-- C13 (`leading_trivia_invariant` without the escape): horizontal trivia (blanks, tabs, CRs,
+    comments up to a newline) in front of a program text does not change its outcome up to
+    positions: `t ++ src` parses iff `src` does, to the same AST after `erase`, and is a syntax
+    error iff `src` is, with the same message (`resEquivT_iff`); for both parsers, any rule
+    table without EOF rules. -/
+theorem leading_trivia_invariant_total (tbl : RuleTable) (hT : ParserFuel.EofRule tbl)
+    (t src : Bytes) (ht : Trivia t src) :
+    ResEquivT (parseProgramSrc tbl (t ++ src)) (parseProgramSrc tbl src) ∧
+    ResEquivT (parseExpressionSrc tbl (t ++ src)) (parseExpressionSrc tbl src) := by
+  obtain ⟨e1, e2⟩ := leading_trivia_invariant tbl t src ht
+  obtain ⟨a1, a2⟩ := parse_never_oof tbl hT (t ++ src)
+  obtain ⟨b1, b2⟩ := parse_never_oof tbl hT src
+  exact ⟨resEquivT_of e1 a1 b1, resEquivT_of e2 a2 b2⟩
+
+example : Trivia b!" \t # note" b!"\n{ print 1 }" :=
+  .blank _ _ _ rfl (.blank _ _ _ rfl (.blank _ _ _ rfl
+    (.comment b!" note" [] _ (by decide) (.inr rfl) (.nil _))))
+
+/-- C13 (leading trivia, spelled out in the direction "the text with trivia parses whenever the
+    text without does", and the same for syntax errors) -/
+theorem leading_trivia_parses (tbl : RuleTable) (hT : ParserFuel.EofRule tbl)
+    (t src : Bytes) (ht : Trivia t src) :
+    (∀ p, parseProgramSrc tbl src = .ok p →
+      ∃ p', parseProgramSrc tbl (t ++ src) = .ok p' ∧ erase p' = erase p) ∧
+    (∀ e, parseProgramSrc tbl src = .syntaxErr e →
+      ∃ e', parseProgramSrc tbl (t ++ src) = .syntaxErr e' ∧ e'.msg = e.msg) ∧
+    (∀ x, parseExpressionSrc tbl src = .ok x →
+      ∃ x', parseExpressionSrc tbl (t ++ src) = .ok x' ∧ erase x' = erase x) ∧
+    (∀ e, parseExpressionSrc tbl src = .syntaxErr e →
+      ∃ e', parseExpressionSrc tbl (t ++ src) = .syntaxErr e' ∧ e'.msg = e.msg) := by
+  obtain ⟨h1, h2⟩ := leading_trivia_invariant_total tbl hT t src ht
+  obtain ⟨_, _, a3, a4, _⟩ := (resEquivT_iff _ _).mp h1
+  obtain ⟨_, _, b3, b4, _⟩ := (resEquivT_iff _ _).mp h2
+  exact ⟨a3, a4, b3, b4⟩
+
+/-- an instance where the premise of the second clause holds (`{ print` is a syntax error, and
+    so it is after a comment) -/
+example : Trivia b!"# c" b!"\n{ print" ∧
+    (match parseProgramSrc expectedRuleTable b!"\n{ print",
+        parseProgramSrc expectedRuleTable (b!"# c" ++ b!"\n{ print") with
+      | .syntaxErr e, .syntaxErr e' => e.msg == e'.msg | _, _ => false) = true :=
+  ⟨.comment b!" c" [] _ (by decide) (.inr rfl) (.nil _), by decide +kernel⟩
 
 end Jqawk.C13
